@@ -1,8 +1,7 @@
 # C17: with fee 0, size_to_qty returns a quantity whose float cost exceeds the capital by one ulp; a fresh futures
 # account holding exactly that capital (leverage 1) rejects the order (InsufficientMargin); same on spot.
 # run: cd $(mktemp -d) && PYTHONPATH=/repo:/verif /venv/bin/python /verif/findings_repro/C17_size_to_qty_exact_fit_rejected.py
-import warnings; warnings.filterwarnings('ignore')
-from jesse import utils
+import warnings; warnings.filterwarnings('ignore'); from jesse import utils
 from harness.session import ObjSession
 capital, price = 28.7, 0.1
 qty = utils.size_to_qty(capital, price, precision=0, fee_rate=0)
@@ -16,4 +15,6 @@ for typ in ('futures', 'spot'):
         print(typ, 'REJECTED:', type(e).__name__)
         rejected = True
 assert qty * price > capital and rejected
+q2 = utils.risk_to_qty(820.55, 1, 1.25, 1.24, precision=2, fee_rate=0)     # capped by the capital: same defect
+print('risk_to_qty(820.55, 1%, 1.25, 1.24, precision=2) =', q2, ' cost', repr(q2 * 1.25), '> 820.55:', q2 * 1.25 > 820.55)
 print('DEFECT REPRODUCED: an order for size_to_qty(capital, price) is rejected by an account holding the capital')
